@@ -139,6 +139,17 @@ def corpus():
     for s in G.PLAIN_STRINGS:
         out.append({"kind": "quoted", "value": s, "indent": 2})
         out.append({"kind": "rawblock", "value": s, "indent": 2})
+    # compositional pool (seeded C03-d): every pair of character classes in one string, as a quoted
+    # value / default / directive argument, as a quoted description, and (where legal) in a block string
+    for a, b, s in G.pairwise_strings():
+        q = G._quote(s)
+        out.append(doc_case('{ f(x: %s) @d(y: [%s]) } %s scalar S query ($v: String = %s) { g }'
+                            % (q, q, q, q), 2))
+        out.append({"kind": "quoted", "value": s, "indent": 2})
+    for a, b, s in G.pairwise_strings(G.BLOCK_CLASSES):
+        body = G.block_body_of(s)
+        out.append(doc_case('{ f(x: """%s""") } """%s""" type T { h(x: String = """%s"""): Int }'
+                            % (body, body, body), 2))
     return out
 
 
@@ -156,6 +167,12 @@ def generate(rng, tier):
             cases.append(doc_case(text, i))
         if rng.random() < 0.3:
             cases.append(doc_case(text, rng.choice(INDENTS), incl=False))
+    for _ in range(80 if tier == "quick" else 1500):
+        s1 = G.random_string(rng)
+        q = G._quote(s1)
+        body = G.block_body_of(G.random_string(rng, G.BLOCK_CLASSES))
+        cases.append(doc_case('%s type T @d(a: %s) { f(x: String = %s, y: String = """%s"""): Int } { g(z: """%s""") }'
+                              % (q, q, q, body, body), rng.choice(INDENTS)))
     for _ in range(60 if tier == "quick" else 600):
         # random strings over a small alphabet that hits every branch of the quoting code
         alpha = ['"', "\\", "\n", " ", "\t", "a", "\U0001F600", "\x01", "\r", "b", '"', "\\"]
